@@ -209,7 +209,21 @@ func c12Reference(cs c12Case, g *GenomeSpec) (outs []float64, depth int, ok, ski
 
 var c12Solvers = []string{"Network.ForwardSteps(D)", "Network.ForwardSteps(D+2)", "Network.RecursiveSteps", "Fast.ForwardSteps(D)", "Fast.ForwardSteps(D+2)", "Fast.RecursiveSteps", "Fast.Relax(D+3)"}
 
+// c12Permuted rebuilds the network through the public constructor with the outputs listed in
+// REVERSE order (NewNetwork takes the outputs as its own list, independent of the node list).
+func c12Permuted(net *network.Network) *network.Network {
+	outs := make([]*network.NNode, len(net.Outputs))
+	for i, o := range net.Outputs {
+		outs[len(outs)-1-i] = o
+	}
+	return network.NewNetwork(net.VInputs(), outs, net.BaseNodes(), net.Id)
+}
+
 func c12RunSolver(si int, gen *genetics.Genome, input []float64, depth int) (outs []float64, err error) {
+	return c12RunSolverP(si, gen, input, depth, false)
+}
+
+func c12RunSolverP(si int, gen *genetics.Genome, input []float64, depth int, permute bool) (outs []float64, err error) {
 	defer func() {
 		if r := recover(); r != nil {
 			err = fmt.Errorf("panic: %v", r)
@@ -218,6 +232,9 @@ func c12RunSolver(si int, gen *genetics.Genome, input []float64, depth int) (out
 	net, err := gen.Genesis(1)
 	if err != nil {
 		return nil, err
+	}
+	if permute {
+		net = c12Permuted(net)
 	}
 	var solver network.Solver = net
 	if si >= 3 {
@@ -262,6 +279,24 @@ func c12Eval(cs c12Case) (fails [][2]string, excluded, skipped bool, depth int) 
 		return nil, false, true, depth
 	}
 	gen := g.Build()
+	if cs.Shape.NO > 1 {
+		// the same network with its outputs listed in reverse order: output i of every solver is the
+		// i-th node of the network's output list
+		for si, name := range c12Solvers {
+			got, err := c12RunSolverP(si, gen, cs.Input, depth, true)
+			if err != nil {
+				fails = append(fails, [2]string{name + "/permuted-outputs-error", fmt.Sprintf("%s failed on the network with reversed output list: %v", name, err)})
+				continue
+			}
+			for i := range want {
+				w := want[len(want)-1-i]
+				if i >= len(got) || (!relClose(got[i], w, 1e-11) && math.Abs(got[i]-w) > 1e-13) {
+					fails = append(fails, [2]string{name + "/permuted-outputs", fmt.Sprintf("%s on the network whose output list is reversed: output %d = %v, topological evaluation of that output node gives %.17g", name, i, got, w)})
+					break
+				}
+			}
+		}
+	}
 	for si, name := range c12Solvers {
 		got, err := c12RunSolver(si, gen, cs.Input, depth)
 		if err != nil {
@@ -426,7 +461,7 @@ func runC12(c *Ctx) {
 	for _, p := range plans {
 		desc += fmt.Sprintf("(bias=%d,in=%d,hidden=%d,out=%d: 2^%d edge sets x %d weight rotations x %d activation patterns x %d inputs) ", p.shape.NB, p.shape.NI, p.shape.NH, p.shape.NO, len(p.shape.edges()), len(p.wrots), len(p.acts), len(p.inputs))
 	}
-	c.Rule = "all feed-forward edge sets over the listed node sets in which every neuron is reachable from a sensor: " + desc + "x 7 solver entry points on fresh instances, and a sequence of 4 input vectors on one reused instance per entry point without flush, vs Kahn-order evaluation (1e-11 relative); weights from {0.5,-1.5,0.25,2} by rotation; non-trivial = distinct (shape, edge set) with all neurons reachable"
+	c.Rule = "all feed-forward edge sets over the listed node sets in which every neuron is reachable from a sensor: " + desc + "x 7 solver entry points on fresh instances (for two-output shapes also on a network rebuilt through NewNetwork with the output list reversed), and a sequence of 4 input vectors on one reused instance per entry point without flush, vs Kahn-order evaluation (1e-11 relative); weights from {0.5,-1.5,0.25,2} by rotation; non-trivial = distinct (shape, edge set) with all neurons reachable"
 	type job struct {
 		pi     int
 		lo, hi uint64
